@@ -465,6 +465,9 @@ def mk_tag(fn, e: ast.Call) -> str:
             splat = (f"(← pyKwSplatC11 {fn.V(k.value)} [{', '.join(T.lstr(p) for p in supplied)}] "
                      f"[{', '.join(T.lstr(p) for p in open_)}])")
         elif k.arg == "_add_ws":
+            # emitted before the attribute keywords: must not change the order of evaluation
+            if not trivial(k.value) and e.keywords[0] is not k:
+                raise T.Untranslatable("constructor call Tag(…): a computed `_add_ws=` after other keywords")
             wsterm = fn.V(k.value)
         elif k.arg in ("self", "_name"):
             raise T.Untranslatable(f"constructor call Tag(…) with keyword {k.arg}")
@@ -477,7 +480,8 @@ def mk_tag(fn, e: ast.Call) -> str:
     if ini.spec.recursive or upd.spec.recursive or list(ini.all_params) != ["self", "args", "kwargs"]:
         raise T.Untranslatable("constructor call Tag(…): TagAttrDict.__init__ has another signature")
     attrs = f"(← TagAttrDict_initC11 G (PVal.dict []) (PVal.tuple []) {kw})"
-    return f"(← mkTagC11 {name} {attrs} [{', '.join(kids)}] {wsterm})"
+    # Python evaluates the positional arguments, then the keywords, then runs `__init__`
+    return f"(← mkTagC11 {name} [{', '.join(kids)}] {wsterm} {attrs})"
 
 
 # ---------------------------------------------------------------------------------------------- expressions
